@@ -334,3 +334,48 @@ Theorem C10_normalize_stream_preserves_python : forall name sf,
        canon_eqb (stream_segs s' (path_of name (fst f))) (map PN.of_pseg (snd f)) = true).
 Proof. exact PN.py_normalize_stream_preserves. Qed.
 Print Assumptions C10_normalize_stream_preserves_python.
+
+(* ==== the other public entry points of sdk/go/manifest (proofs/C10_gm_entry.v) ==== *)
+From AV Require Import proofs.C10_gm_entry.
+
+(* malformed_rejected, Manifest.BlockIterWithDuplicates, for EVERY input string: [gm_blocks txt = Ok (l, e)] = the blocks
+   delivered and e = "Manifest.Err != nil after the channel is closed".  If any non-blank line of the text is not
+   structurally well-formed - the first, an interior or the last one - the error is reported. *)
+Theorem C10_malformed_rejected_gomanifest_blockiter : forall txt l e,
+  gm_blocks txt = Ok (l, e) -> forallb wf_line (gm_lines txt) = false -> e = true.
+Proof. exact gm_blocks_malformed. Qed.
+Print Assumptions C10_malformed_rejected_gomanifest_blockiter.
+
+(* ... the error flag is only ever set: whatever lines follow, an error recorded before them is still reported *)
+Theorem C10_blockiter_error_is_sticky : forall ls l e, blocks_lines ls true = Ok (l, e) -> e = true.
+Proof. exact blocks_lines_sticky. Qed.
+Print Assumptions C10_blockiter_error_is_sticky.
+
+(* ... as the clause of the boolean specification: for EVERY input string the iteration neither panics nor ends in an
+   outcome other than (blocks, flag), and what it delivers passes GM.robust_op (no panic; malformed => error) *)
+Theorem C10_blockiter_robust : forall txt,
+  match gm_blocks txt with
+  | Ok (l, e) => GM.robust_op (forallb wf_line (gm_lines txt)) (GM.OpBlocks, GM.ObsBlocks l e) = true
+  | Err | Panic => False
+  | Unmodelled => True
+  end.
+Proof. exact gm_blocks_robust. Qed.
+Print Assumptions C10_blockiter_robust.
+
+(* codec_agrees, TEXT level, BlockIterWithDuplicates: on every valid manifest no error is reported and the delivered
+   blocks pass GM.valid_op = they are exactly the block tokens of the text, in order, with their hash and size *)
+Theorem C10_codec_agrees_text_gomanifest_blockiter : forall txt m,
+  valid_manifest txt = true -> parse_manifest txt = Some m -> small_manifest m = true ->
+  exists l, gm_blocks txt = Ok (l, false) /\ GM.valid_op m (GM.OpBlocks, GM.ObsBlocks l false) = true.
+Proof. exact gm_blocks_text_agrees. Qed.
+Print Assumptions C10_codec_agrees_text_gomanifest_blockiter.
+
+(* codec_agrees, TEXT level, Manifest.FileSegmentIterByName: on every valid manifest and for every canonical path ("." or
+   "./a/b") the delivered segments are, after dropping the zero-length marker segments, the reference denotation of the
+   path (all file tokens of all streams with that combined path, in manifest order); this is the clause GM.valid_op *)
+Theorem C10_codec_agrees_text_gomanifest_filesegs : forall txt m path,
+  valid_manifest txt = true -> parse_manifest txt = Some m -> small_manifest m = true -> valid_stream_name_u path = true ->
+  exists l, gm_file_segs txt path = Ok l /\ filter seg_nonempty l = denote m path /\
+            GM.valid_op m (GM.OpFileSegs path, GM.ObsSegs l) = true.
+Proof. exact gm_file_segs_text_agrees. Qed.
+Print Assumptions C10_codec_agrees_text_gomanifest_filesegs.
